@@ -30,6 +30,7 @@ type st = {
   mutable carea : float option;
   mutable minsep : float;
   mutable pair : (float array * float array * string * string * float) option;
+  mutable muls : (float array * float array * float array) list;
   mutable lj2 : (lj * lj * float * float) option;
   mutable nomodel : bool;
   mutable ord : (float option array * string * string * string * string * string) option;
@@ -40,7 +41,7 @@ type st = {
 
 let fresh () = { spec = ""; syms = []; site = None; cell = None; kind = '?'; segs = []; discs = []; ljs = [];
                  radius = 0.; area = 0.; rel = []; cart = []; img_hdr = None; imgs = []; score = None;
-                 carea = None; minsep = nan; pair = None; lj2 = None; nomodel = false; ord = None; ljm = None; mola = []; molb = [] }
+                 carea = None; minsep = nan; pair = None; muls = []; lj2 = None; nomodel = false; ord = None; ljm = None; mola = []; molb = [] }
 
 let tf_of_arr (a : float array) : tf =
   { a00 = f2c a.(0); a01 = f2c a.(1); a02 = f2c a.(2); a10 = f2c a.(3); a11 = f2c a.(4); a12 = f2c a.(5);
@@ -142,6 +143,14 @@ let run_case (c : st) : string =
   (match c.pair with
    | _ when c.lj2 <> None -> ()
    | Some (t1, t2, ab, ba, sep) ->
+       (* the crate's Transform2 * Transform2 against the model's tf_mul, entry by entry *)
+       List.iter (fun (l, r, p) ->
+           let m = arr_of_tf (tf_mul numF (tf_of_arr l) (tf_of_arr r)) in
+           let bad = ref false in
+           Array.iteri (fun k x -> if not (same x p.(k) || (Float.is_nan x && Float.is_nan p.(k))) then bad := true) m;
+           if !bad then note (Printf.sprintf "Transform2 * Transform2: model [%s] impl [%s]"
+                                (String.concat " " (Array.to_list (Array.map (Printf.sprintf "%h") m)))
+                                (String.concat " " (Array.to_list (Array.map (Printf.sprintf "%h") p))))) c.muls;
        let shape = if c.kind = 'P' then Poly c.segs else Mol c.discs in
        let s1 = shape_transform numF (tf_of_arr t1) shape in
        let s2 = shape_transform numF (tf_of_arr t2) shape in
@@ -334,6 +343,10 @@ let main (path : string) : unit =
              let a = Array.of_list r in
              c.pair <- Some (nine (Array.to_list (Array.sub a 0 9)), nine (Array.to_list (Array.sub a 9 9)),
                              a.(18), a.(19), float_of_hex a.(20))
+         | 'U', _ :: r when List.length r = 27 ->
+             let a = Array.of_list r in
+             c.muls <- (nine (Array.to_list (Array.sub a 0 9)), nine (Array.to_list (Array.sub a 9 9)),
+                        nine (Array.to_list (Array.sub a 18 9))) :: c.muls
          | 'Z', [_; x1; y1; s1; e1; c1; x2; y2; s2; e2; c2; eab; eba] ->
              c.lj2 <- Some ({ lx = h x1; ly = h y1; lsigma = h s1; leps = h e1; lcut = Option.map f2c (opt_float_of_tok c1) },
                             { lx = h x2; ly = h y2; lsigma = h s2; leps = h e2; lcut = Option.map f2c (opt_float_of_tok c2) },
